@@ -3,6 +3,12 @@
 import json, sys
 
 CHECKS = {
+ "C03": dict(cat="exploration", tech="proptest-generated (old env, new env) pairs written through libcnb into a directory with canary content, file set compared with an independent renderer of the spec layout; harness-built spec-shaped directories read through libcnb and compared with a reference reader + reference apply",
+   text="Write side: after writing `new` over `old`, the regular files under env/, env.build/, env.launch/ (and per-process sub-directories) must be exactly the spec rendering of `new` with raw bytes, nothing of `old` may survive and canary content must be untouched; the value must read back equal. Read side: directories laid out by the harness (suffix-less, known, unknown and non-UTF-8 suffixes, nested directories, per-process directories) must apply exactly like the reference reader says for every scope and several starting environments.",
+   note="Process names exclude '.'/'..' and names ending in a behaviour suffix; NAME and NAME.override never coexist (spec-level ambiguities); file-name splitting follows libcnb's documented last-dot rule; unix only."),
+ "C10": dict(cat="exploration", tech="exhaustive enumeration of all 6^4 path-kind assignments x sampled explicit entry sets against the reference apply with implicit entries; read->write fixpoint over snapshots",
+   text="For every assignment of {absent, dir, file, symlink->dir, symlink->file, dangling} to bin/lib/include/pkgconfig, with generated explicit entries on the same variables laid out by the harness, the environment read by libcnb must apply like the reference (implicit prepend for build: 5 variables, launch: 2, nothing for all/process) and repeated read->write cycles must leave the env directories and everything else unchanged.",
+   note="Implicit entries are applied after the explicit ones of the same scope (libcnb's documented behaviour); trusted: reference model in envmodel.rs."),
  "C07": dict(cat="exploration", tech="proptest-generated builder call sequences and payloads written through libcnb's own writers, decoded by an independent TOML 1.0 reader (Python tomllib) and compared with an independently computed model of the spec document; round trip through libcnb's readers",
    text="Programs over LaunchBuilder/ProcessBuilder/BuildPlanBuilder, LayerContentMetadata, Store, ExecDProgramOutput (real fd 3 in a helper process) and PackageDescriptor with escaping-hostile strings and nested metadata of every TOML kind are written by libcnb; tomllib must parse the text and a reader knowing only the spec's field names/defaults must recover the model; keys the spec does not define are flagged.",
    note="Trusted: Python tomllib; the harness's model of builder semantics (groups split at each `or`, last default/working_directory wins). Datetimes limited to reader-independent spellings."),
